@@ -1,11 +1,8 @@
 #!/bin/sh
-# tools/regress.sh — every seeded change and every mutant against the quick tier of its check (scratch copies only; /repo untouched)
+# tools/regress.sh [parallel] — every seeded change and every mutant against the quick tier of its check (scratch copies only; /repo untouched)
 cd /verif
-for d in seeded/*/; do
-  n=$(basename $d); id=${n%%-*}
-  tools/sens.py $id /verif/$d/patch.diff --lines 0 | tail -1 | sed "s/^/seed $n: /"
-done
-for m in mutants/*/*.json; do
-  id=$(basename $(dirname $m))
-  tools/sens.py $id $m --lines 0 | tail -1
-done
+P=${1:-3}
+{
+  for d in seeded/*/; do n=$(basename $d); echo "seed $n ${n%%-*} /verif/$d/patch.diff"; done
+  for m in mutants/*/*.json; do echo "mutant $(basename $m .json) $(basename $(dirname $m)) /verif/$m"; done
+} | xargs -P $P -L 1 sh -c 'r=$(tools/sens.py $2 $3 --lines 0 | tail -1); echo "$0 $1: $r"'
